@@ -34,18 +34,19 @@ Definition show_state (s : state) : string :=
             ("line", show_list show_N (line_l s)); ("ast_tr", show_option show_N (ast_tr s));
             ("attempted", show_list (show_pair show_N show_bool) (attempted s));
             ("user_ns", show_list show_N (user_ns s));
-            ("log_pre", show_bool (log_pre s)); ("log_dirty", show_bool (log_dirty s))].
+            ("log_pre", show_bool (log_pre s)); ("log_dirty", show_bool (log_dirty s));
+            ("has_shell", show_bool (has_shell s)); ("registered", show_list show_N (registered s))].
 
 Definition show_shell (sh : shell) : string :=
   show_obj [("ai", show_state (ai sh)); ("loaded", show_bool (ext_loaded sh));
-            ("escaped", show_option show_exc (escaped sh))].
+            ("escaped", show_option show_exc (escaped sh)); ("attr", show_bool (ext_attr sh))].
 
 Definition slots_of (l : list (jp * val)) : jp -> val :=
   fun j => match find (fun p => jp_eqb (fst p) j) l with Some p => snd p | None => VUnset end.
 
 (* the trace of shells after every operation *)
-Definition run_ops (E : env) (slots : list (jp * val)) (ast cleanup line : list N) (nxt : N) (ops : list op) : string :=
-  let sh0 := init_shell (init_state (slots_of slots) ast cleanup line nxt) in
+Definition run_ops (E : env) (slots : list (jp * val)) (ast cleanup line : list N) (shell : bool) (nxt : N) (ops : list op) : string :=
+  let sh0 := init_shell (init_state (slots_of slots) ast cleanup line shell nxt) in
   show_list show_shell (sh0 :: trace E ops sh0).
 
 Definition show_via (v : via) : string := match v with ViaPyflyby => """pyflyby""" | ViaOriginal => """original""" end.
@@ -54,8 +55,8 @@ Definition show_cout (o : cout) : string :=
             ("ok", show_bool (co_ok o)); ("escaped", show_option show_exc (co_escaped o))].
 
 (* the trace of (shell, outcome of the interaction) after every session step *)
-Definition run_session (E : env) (IO : io_env) (slots : list (jp * val)) (ast cleanup line : list N) (nxt : N)
+Definition run_session (E : env) (IO : io_env) (slots : list (jp * val)) (ast cleanup line : list N) (shell : bool) (nxt : N)
            (ops : list sop) : string :=
-  let sh0 := init_shell (init_state (slots_of slots) ast cleanup line nxt) in
+  let sh0 := init_shell (init_state (slots_of slots) ast cleanup line shell nxt) in
   show_list (fun p => "[" ++ show_shell (fst p) ++ "," ++ show_option show_cout (snd p) ++ "]")
             ((sh0, None) :: strace E IO nxt ops sh0).
